@@ -511,7 +511,8 @@ class Run:
     # ---- judging one answer
     def known_exact(self, conc, c, series):
         """finding id(s) whose deviation model predicts exactly this answer"""
-        for k in c.get("known", []):
+        # the smallest combination of open findings whose models predict exactly this answer
+        for k in sorted(c.get("known", []), key=lambda k: len(known_ids(k))):
             ids = known_ids(k)
             if all(i in self.open for i in ids) and diff_answer(series, exp_series(conc, c, k["ans"])) == "":
                 return join_ids(ids)
@@ -529,7 +530,7 @@ class Run:
         """RangeEqInstants on the server: its own instant answers at every step of the range query c.
         Returns the id suffix of the matrix (ideal or a deviation model of an open finding) that ALL instants agree with,
         or None."""
-        cands = [("", c["exp"])] + [(join_ids(known_ids(k)), k["ans"]) for k in c.get("known", [])
+        cands = [("", c["exp"])] + [(join_ids(known_ids(k)), k["ans"]) for k in sorted(c.get("known", []), key=lambda k: len(known_ids(k)))
                                     if all(i in self.open for i in known_ids(k))]
         answers = []
         for t in steps_of(c):
@@ -632,10 +633,23 @@ class Run:
                 err, ty, series = parse_prom(body)
                 if not err and len(series) >= n:
                     del todo[(si, m)]
+                elif time.time() - t0 > 15 and self.listed(node, conc.metric(m)) >= n:
+                    # the series index lists every series (SHOW SERIES, a route that does not pass through the PromQL code under
+                    # test) but count_over_time still does not count them: not a lag of the index - the cases are judged
+                    del todo[(si, m)]
             if todo:
                 time.sleep(0.4)
         if todo:
             raise vlib.Infra(f"series not visible after {timeout}s: {sorted(todo)[:5]}")
+
+    @staticmethod
+    def listed(node, metric):
+        """number of series of a measurement that SHOW SERIES lists"""
+        try:
+            st, body = node.srv.query(f'show series from "{metric}"', db=DB)
+            return sum(len(x.get("values") or []) for r in body.get("results", []) for x in r.get("series") or [])
+        except Exception:   # noqa
+            return 0
 
     def drive_multipt(self):
         """sentinel of F-C18-8: a node with three partitions answers a PromQL query from ONE of them.  Plain instant
@@ -825,6 +839,28 @@ def nontrivial(c):
     return bool(c["exp"])
 
 
+def nan_coverage(sets):
+    """how far ordinary NaN samples were exercised: counted on the cases of this run"""
+    def has_nan_answer(c):
+        if c["a"] == "instant":
+            return any(x["d"] == 0 and x["n"] == 0 for x in c["exp"])
+        return any(p[1] == 0 and p[2] == 0 for x in c["exp"] for p in x["pts"])
+    with_nan = [s for s in sets if any(p[1] == NAN for x in s["data"]["series"] for p in x["pts"])]
+    fns = {}
+    for s in with_nan:
+        for c in s["cases"]:
+            if has_nan_answer(c):
+                for n in walk(c["e"]):
+                    key = n.get("fn") or (n["k"] + ":" + n["op"] if n["k"] in ("agg", "bin") else n["k"])
+                    fns[key] = fns.get(key, 0) + 1
+    return {"sample_sets_with_nan_samples": len(with_nan),
+            "cases_over_sample_sets_with_nan": sum(len(s["cases"]) for s in with_nan),
+            "cases_with_nan_in_expected_answer": sum(1 for s in with_nan for c in s["cases"] if has_nan_answer(c)),
+            "cases_with_prediction_of_F-C18-10_or_11": sum(1 for s in sets for c in s["cases"] if any(
+                i in ("F-C18-10", "F-C18-11") for k in c.get("known", []) for i in known_ids(k))),
+            "operators_in_cases_with_nan_answer": dict(sorted(fns.items()))}
+
+
 def report(run, sets, stats, nvalidated, tier, seed, t0):
     bad = [r for r in run.results if not r["known"]]
     known = [r for r in run.results if r["known"]]
@@ -865,7 +901,8 @@ def report(run, sets, stats, nvalidated, tier, seed, t0):
         "evaluations": run.nq,
         "distinct_nontrivial": sum(1 for s in sets for c in s["cases"] if nontrivial(c)),
         "rule": "cases = (sample set, expression, instant time | start/end/step) evaluated by TLC in exact arithmetic (seeded "
-                "simulation of the grammar + BFS family over a fixed sample set + sentinel); distinct_nontrivial = cases with a "
+                "simulation of the grammar + BFS family over a fixed sample set + NaN family over a sample set with ordinary NaN samples + "
+                "sentinel); distinct_nontrivial = cases with a "
                 "non-empty expected answer; evaluations = real HTTP queries (cases x layouts x servers + the per-step instant "
                 "queries of the RangeEqInstants triage); every case is first evaluated by the upstream promql engine "
                 "(spec validation)",
@@ -875,6 +912,7 @@ def report(run, sets, stats, nvalidated, tier, seed, t0):
         "range_cases": sum(1 for s in sets for c in s["cases"] if c["a"] == "range"),
         "queries_by_phase": run.by_phase,
         "divergent_cases": nviol,
+        "nan": nan_coverage(sets),
         "known_finding_cases": {fid: len({(r["set"], r["case"]) for r in rs}) for fid, rs in seen_ids.items()},
     }
     vlib.write_evidence(PROP, tier, seed, "model_checking", cov, time.time() - t0, nviol, [
